@@ -77,6 +77,157 @@ def parse_row_strict(text):
     return n, rest
 
 
+def pv_oracle_text(s):
+    """the scenario lines of the emucore protocol + the physical ids of the CPUs in gindex order (the CPU names
+    of the ROW file and of the affinity labels are made of them)"""
+    out = s.oracle_text()
+    phy = []
+    for name in s.loom_order():
+        for (idx, p) in sorted(s.looms[name], key=lambda x: x[1]):
+            phy.append(p)
+        phy.append(-1)
+    out.insert(len(out) - 1, "Y " + " ".join(str(p) for p in phy))
+    return out
+
+
+def run_pv_oracle(oracle, scenarios, extra=()):
+    """-> per scenario ('err', code, {}) | ('ok', 0, {file name: bytes}) : the files the Coq writer model produces"""
+    def batch(ix):
+        lines = []
+        for s in scenarios[ix:ix + 100]:
+            lines += pv_oracle_text(s)
+            lines[-1:-1] = list(extra)
+        rc, out, err = common.run([oracle], input="\n".join(lines) + "\n", timeout=900)
+        res = []
+        cur = None
+        for ln in out.split("\n"):
+            if ln.startswith("err"):
+                cur = ("err", int(ln.split()[1]), {})
+            elif ln == "ok":
+                cur = ("ok", 0, {})
+            elif ln.startswith("FILE "):
+                _, name, hx = ln.split()
+                cur[2][name] = b"" if hx == "-" else bytes.fromhex(hx)
+            elif ln == "done":
+                res.append(cur)
+                cur = None
+        if len(res) != len(scenarios[ix:ix + 100]):
+            raise RuntimeError("pv oracle answered %d of %d scenarios: %s" % (len(res), len(scenarios[ix:ix + 100]), err[-400:]))
+        return res
+    out = []
+    for part in trace.pmap(batch, list(range(0, len(scenarios), 100))):
+        out += part
+    return out
+
+
+PV_FILES = ("thread.pcf", "cpu.pcf", "thread.row", "cpu.row", "thread.prv", "cpu.prv")
+
+
+def compare_pv(real_files, model_files, names=PV_FILES):
+    """byte-level comparison of the files ovniemu wrote with the files of the Coq writer model.  .pcf and .row: the
+    whole file; .prv: the header line byte for byte and the record lines as a multiset (records written in one
+    propagation step have no order the property or the model fixes).  -> None or (file, text)"""
+    for name in names:
+        if name not in real_files:
+            return (name, "ovniemu wrote no %s" % name)
+        a = real_files[name].encode("latin1")
+        b = model_files.get(name)
+        if b is None:
+            return (name, "the model has no %s" % name)
+        if name.endswith(".prv"):
+            al, bl = a.split(b"\n"), b.split(b"\n")
+            if al[0] != bl[0]:
+                return (name, "%s header: ovniemu %r, model %r" % (name, al[0][:100], bl[0][:100]))
+            if sorted(al) != sorted(bl):
+                only_r = sorted(set(al) - set(bl))[:3]
+                only_m = sorted(set(bl) - set(al))[:3]
+                return (name, "%s records differ: only ovniemu %r, only model %r (%d vs %d lines)" % (name, only_r, only_m, len(al), len(bl)))
+        elif a != b:
+            al, bl = a.split(b"\n"), b.split(b"\n")
+            for n, (x, y) in enumerate(zip(al, bl), 1):
+                if x != y:
+                    return (name, "%s line %d: ovniemu %r, model %r" % (name, n, x[:120], y[:120]))
+            return (name, "%s: ovniemu has %d lines, the model %d" % (name, len(al), len(bl)))
+    return None
+
+
+def gen_ops(r):
+    """a script of writer operations (see harness/pv_h.c): small id / value / row alphabets so that duplicates,
+    rows set twice, rows never set, indices out of bounds, labels of 511/512/600 bytes and backward times happen"""
+    def label():
+        k = r.below(90)
+        n = 511 if k == 0 else 512 if k == 1 else 600 if k == 2 else r.range(0, 12)
+        alpha = b"abcXYZ 0123456789:._-*()" + (b"\n" if r.chance(1, 30) else b"")
+        return bytes(alpha[r.below(len(alpha))] for _ in range(n)).hex() or "-"
+    nrows = r.choice([1, 2, 3, 4])
+    ops = ["R%d" % nrows]
+    types = []
+    rows = list(range(nrows))
+    if r.chance(1, 6):
+        rows = rows[:-1]                      # a row that is never named
+    t = 0
+    named = set()
+    regs = set()
+    vals = set()
+    for _ in range(r.range(1, 14)):
+        k = r.below(10)
+        if k < 3 or (k < 6 and not types):
+            ty = r.choice([1, 2, 7, 13, 101, 2147483647, -1, 3, 4, 6, 10, 11, 12, 14, 15, 16, 17, 20, 25, 30])
+            if ty in types and not r.chance(1, 12):
+                continue
+            types.append(ty)
+            ops.append("T%d:%s" % (ty, label()))
+        elif k < 6:
+            ty = r.choice(types) if not r.chance(1, 25) else r.choice([1, 2, 99])
+            v = r.choice([0, 1, 2, 3, 5, 1000, -4, 4294967301, 2147483648] + list(range(6, 40)))
+            if (ty, v) in vals and not r.chance(1, 8):
+                continue
+            vals.add((ty, v))
+            ops.append("V%d:%d:%s" % (ty, v, label()))
+        elif k < 7:
+            row = r.choice(list(range(nrows)) * 8 + [nrows, -1])
+            ty = r.choice([1, 2, 7, 13, 14, 15, 16, 17, 20, 25])
+            if (row, ty) in regs and not r.chance(1, 8):
+                continue
+            regs.add((row, ty))
+            ops.append("G%d:%d:%d" % (row, ty, r.choice([0, 0, 2, 4, 8, 16, 12, 24, 0, 2, 0, 4] + ([3, 18, 17] if r.chance(1, 6) else []))))
+        elif k < 8:
+            t = t + r.range(0, 9) if not r.chance(1, 16) else t - r.range(1, 5)
+            ops.append("D%d" % t)
+            if t < 0:
+                t = 0
+        else:
+            g = r.choice([nrows, -1]) if r.chance(1, 25) else r.choice(range(nrows))
+            if g in named and not r.chance(1, 8):
+                continue
+            named.add(g)
+            ops.append("A%d:%s" % (g, label()))
+    for g in rows:
+        if r.chance(4, 5) and not any(o.startswith("A%d:" % g) for o in ops):
+            ops.append("A%d:%s" % (g, label()))
+    return "OPS " + " ".join(ops)
+
+
+def ops_campaign(chk, build, pv_oracle, n):
+    """the writer primitives (pcf_add_type, pcf_add_value, prf_add, prf_close, prv_register, prv_advance, prv_close and
+    the text they write) of the real code, #included in harness/pv_h.c, against the extracted Coq functions on
+    generated operation scripts: same first refused operation, same bytes"""
+    hx = os.path.join(common.BUILD, "harness", "pv_h-" + build.tree)
+    if not os.path.exists(hx):
+        common.cc_harness(hx, [os.path.join(common.VERIF, "harness", "pv_h.c")], build, extra=build.libs_emu)
+    lines = [gen_ops(chk.rng.fork("ops%d" % i)) for i in range(n)]
+    impl = common.batch(hx, lines)
+    modl = common.batch(pv_oracle, lines)
+    bad = []
+    for ln, a, b in zip(lines, impl, modl):
+        chk.case(("ops", ln))
+        chk.count("ops:" + ("refused" if a.startswith("E") else "row-unset" if " rowerr " in a else "written"))
+        if a != b:
+            what = "refused at different operations (real %s, model %s)" % (a[:12], b[:12]) if a[:1] == "E" or b[:1] == "E" else "different bytes"
+            bad.append((ln[:400], what))
+    return bad
+
+
 def check_set(files, base, want_rows, duration, state, thread_file):
     """independent judgement of one .prv/.pcf/.row triple -> list of (key, text)"""
     bad = []
@@ -150,10 +301,28 @@ def expected_rows(s):
 
 
 def run(chk):
-    build, oracle, tables = emucheck.setup(chk, extra_units=("prv",))
+    # "prv": check_flags of prv.c regenerated from the source (C13_prv_flags_from_source); "pv": text and tables of the writer layer
+    units = [u for u in ("prv", "pv") if os.path.exists(os.path.join(common.VERIF, "translate", "units", u + ".py"))]
+    build, oracle, tables = emucheck.setup(chk, extra_units=units)
+    chk.trusted_base += [
+        "translate/units/pv.py: PCF header text, palette, label limits, system-channel names and labels, the models' type "
+        "prefixes/suffixes and value labels are dumped by compiling pv/pcf.c, model_pvt.c, thread.c, cpu.c and every "
+        "<model>/setup.c in probe TUs on every run",
+        "hand model coq/Emu/PvDefs.v (pcf.c/prf.c/prv.c writers and refusals, system_connect, model_pvt.c, mark_connect, "
+        "finish_pvt/task_create_pcf_types), compared BYTE FOR BYTE with the .pcf/.row files and the .prv header and "
+        "records of ovniemu on every accepted trace (oracle/pv_drv.ml)",
+    ]
+    pv_oracle = None
+    try:
+        pv_oracle = common.build_oracle("pv", "Extract_pv", "pv_drv.ml", "pv_x")
+    except Exception as e:
+        chk.notes.append("pv oracle unavailable: %r" % (e,))
+        if not getattr(chk, "proof_broken", None):
+            chk.proof_broken = {"kind": "extraction", "error": repr(e)[:600]}
     chk.assumptions = ["the input is what the player delivers: events in non-decreasing time order (C03)",
                        "state types are those of corpus/C13/state_types.json (pinned from the tree: types whose values are names)",
-                       "breakdown files (-b) are judged by the independent checker only; the Coq model has no breakdown output"]
+                       "breakdown files (-b) are judged by the independent checker only; the Coq model has no breakdown output",
+                       "in the .prv files the order of the records written within one propagation step is not compared (records are compared as a multiset)"]
     state = json.load(open(os.path.join(common.VERIF, "corpus", "C13", "state_types.json")))
     # value tables per PRV type and side, from the dump of the current source
     dumped = {"thread": {}, "cpu": {}}
@@ -205,9 +374,12 @@ def run(chk):
         scs.append(s)
     real = emucore.run_real(build, scs, keep_files=True)
     mod = emucore.run_oracle(oracle, scs) if oracle else [None] * len(scs)
+    pvm = run_pv_oracle(pv_oracle, scs) if pv_oracle else [None] * len(scs)
     corr = []
+    pvcorr = []
+    npv = 0
     nacc = 0
-    for s, r, m in zip(scs, real, mod):
+    for s, r, m, pm in zip(scs, real, mod, pvm):
         desc = s.describe()
         chk.case(("out", desc["events"], desc["threads"], desc["looms"], desc["enabled"]))
         chk.count("trace:" + ("accepted" if r["rc"] == 0 else "rejected"))
@@ -221,11 +393,24 @@ def run(chk):
             for (k, text) in probs:
                 chk.violation("%s:%s" % (k, key), text, {"scenario": desc})
             chk.count("records", r["files"].get("thread.prv", "").count("\n") + r["files"].get("cpu.prv", "").count("\n"))
+            if pm is not None:
+                # the files of the Coq writer model, byte for byte
+                if pm[0] != "ok":
+                    pvcorr.append((desc, "the writer model refuses (code %d) a trace ovniemu accepts" % pm[1]))
+                else:
+                    d = compare_pv(r["files"], pm[2])
+                    npv += 1
+                    chk.count("pv-files-compared", len(PV_FILES))
+                    if d:
+                        pvcorr.append((desc, d[1]))
+        elif pm is not None and pm[0] == "ok":
+            pvcorr.append((desc, "the writer model accepts, ovniemu exits %s: %s" % (r["rc"], emucore._first_error(r["stderr"]))))
         if m is not None:
             d = emucore.compare(s, r, m)
             if d:
                 corr.append((desc, d))
     chk.coverage["accepted_traces_checked"] = nacc
+    chk.coverage["traces_with_files_compared_byte_for_byte"] = npv
 
     # ---- breakdown outputs (-b): generated by the C20 engine's trace generator, judged by the same checker
     try:
@@ -294,7 +479,22 @@ def run(chk):
     chk.coverage["rule"] = ("every .prv/.pcf/.row of every accepted generated trace (random thread/affinity histories over 1-3 looms with table events of random "
                             "model subsets; nOS-V and Nanos6 task histories with ranks and app ids; breakdown traces with -b) parsed by a strict independent "
                             "reader: header shape, time order, rows within the declared count, duration = last event time, types declared in the PCF, "
-                            "state-type values labelled, ROW names = documented order; thread/cpu rows also compared with the extracted Coq model")
+                            "state-type values labelled, ROW names = documented order; thread/cpu rows also compared with the extracted Coq model; the six files of each "
+                            "accepted trace compared byte for byte with the files of the extracted Coq writer model (PvDefs.v); writer primitives of the real pcf.c/prf.c/prv.c "
+                            "(harness/pv_h.c) against the extracted functions on generated operation scripts")
+    if pv_oracle:
+        opsbad = ops_campaign(chk, build, pv_oracle, chk.budget(1500, 12000))
+        chk.coverage["writer_operation_scripts_compared"] = chk.budget(1500, 12000)
+        if opsbad:
+            chk.coverage["pv_ops_disagreements"] = [{"script": c[0], "what": c[1]} for c in opsbad[:5]]
+            pvcorr += [({"ops": c[0]}, "writer primitives: " + c[1]) for c in opsbad]
+    if pvcorr:
+        chk.coverage["pv_correspondence_disagreements"] = [{"scenario": c[0], "what": c[1]} for c in pvcorr[:5]]
+    if pvcorr and not chk.violations:
+        chk.violation("broken-correspondence:pv",
+                      "the Coq writer model (PvDefs.v) and ovniemu disagree on the bytes of the Paraver files of %d accepted traces, none of "
+                      "which violates the property: %s" % (len(pvcorr), pvcorr[0][1]),
+                      {"correspondence": "PvDefs writer model vs ovniemu files", "first": pvcorr[0]}, found_input=False)
     emucheck.finish_corr(chk, corr)
 
 
